@@ -13,16 +13,17 @@
     ordinary.
 
     Keys are handled the way the Go code handles them: MarshalTLB first turns
-    every key into its BitString, and everything after that is bit-level.  The
-    key types' [Equal]/[Compare] are parameters of [put]/[get]; the instances
-    for UintN / BitsN ([bits_ltb]) and IntN ([signed_ltb]) are given below.
+    every key into its BitString, sorts the pairs by key bits, and everything
+    after that is bit-level.  The key types' [Equal]/[Compare] are parameters
+    of [put]/[get]; the instances for UintN / BitsN ([bits_ltb]), IntN
+    ([signed_ltb]) and AddressWithWorkchain ([addr_ltb]) are given below.
 
     The value codec is a parameter: [venc v] is the bits and the references
     that Marshal(c, value) appends to the leaf cell after the label, [vdec] is
     Unmarshal(c, &value) on the unread bits and the references of the leaf cell
     (what it leaves unread is ignored by mapInner, so only the value is
     returned). *)
-From Coq Require Import List NArith Arith Lia Bool.
+From Coq Require Import List NArith ZArith Arith Lia Bool.
 From Tongo Require Import Lib.Bits Lib.Res Spec.Dict.
 Import ListNotations.
 
@@ -55,6 +56,24 @@ Definition enc_label_go (m : nat) (lbl : bits) : bits :=
   if (length lbl <? 8)%nat
   then false :: (ones (length lbl) ++ [false]) ++ lbl          (* WriteBit(0); WriteUnary; WriteBitString *)
   else true :: false :: bits_of (lim_width m) (N.of_nat (length lbl)) ++ lbl.
+
+(** ** the sort in Hashmap.MarshalTLB
+    slices.SortStableFunc(order, bytes.Compare(keys[a].Buffer(), keys[b].Buffer())):
+    every key of one dictionary has FixedSize() bits and the unwritten bits of
+    a fresh cell buffer are 0, so bytes.Compare is the lexicographic bit order
+    [bits_cmp]; the sort is stable (an element is inserted in front of the
+    first element that is not smaller, and earlier elements are inserted last). *)
+Fixpoint binsert {V} (x : bits * V) (l : list (bits * V)) : list (bits * V) :=
+  match l with
+  | [] => [x]
+  | y :: t => if bits_ltb (fst y) (fst x) then y :: binsert x t else x :: l
+  end.
+
+Fixpoint bsort {V} (l : list (bits * V)) : list (bits * V) :=
+  match l with
+  | [] => []
+  | x :: t => binsert x (bsort t)
+  end.
 
 Section Codec.
 Variable V : Type.
@@ -100,11 +119,14 @@ Fixpoint encode_map (fuel : nat) (n : nat) (kvs : list (bits * V)) : res cell :=
       end
   end.
 
-(* Hashmap.MarshalTLB into a fresh cell *)
+(* Hashmap.MarshalTLB into a fresh cell: nothing for an empty map; otherwise the
+   (key bits, value) pairs are first put into ascending bit order (stable sort
+   of an index permutation, bytes.Compare on the key buffers) and then handed
+   to encodeMap, so the slice order never reaches the encoder *)
 Definition encode (n : nat) (kvs : list (bits * V)) : res cell :=
   match kvs with
   | [] => Ok (Cell [] [])
-  | _ => encode_map (S (length kvs)) n kvs
+  | _ => encode_map (S (length kvs)) n (bsort kvs)
   end.
 
 (* HashmapE.MarshalTLB = Maybe ^Hashmap into a fresh cell *)
@@ -253,6 +275,42 @@ End PutGet.
 Definition flip_first (a : bits) : bits :=
   match a with [] => [] | x :: t => negb x :: t end.
 Definition signed_ltb (a b : bits) : bool := bits_ltb (flip_first a) (flip_first b).
+
+(** ** the key codecs: value of the key type -> key bits, and Compare on values *)
+Definition uint_key (w : nat) (x : N) : bits := bits_of w x.                 (* WriteUint(x, w) *)
+Definition int_key (w : nat) (x : Z) : bits :=                               (* WriteInt(x, w)  *)
+  bits_of w (Z.to_N (x mod 2 ^ Z.of_nat w)).
+Definition bytes_key (a : list N) : bits := flat_map (bits_of 8) a.          (* WriteBytes(a)   *)
+
+(* tlb.AddressWithWorkchain{Workchain int8; Address Bits256}:
+   MarshalTLB = WriteInt(workchain, 32); WriteBytes(address[:])  (288 bits);
+   Compare = uint32(workchain) first, then bytes.Compare(address) *)
+Definition addr_key (k : Z * list N) : bits := int_key 32 (fst k) ++ bytes_key (snd k).
+
+(* UnmarshalTLB: Workchain = int8(ReadInt(32)) (truncation!), Address = ReadBytes(32) *)
+Fixpoint bytes_of_bits (fuel : nat) (l : bits) : list N :=
+  match fuel with
+  | O => []
+  | S f => match l with [] => [] | _ => N_of_bits (firstn 8 l) :: bytes_of_bits f (skipn 8 l) end
+  end.
+
+Definition addr_unkey (k : bits) : Z * list N :=
+  let u := (N_of_bits (firstn 32 k) mod 256)%N in
+  (if (128 <=? u)%N then (Z.of_N u - 256)%Z else Z.of_N u, bytes_of_bits 32 (skipn 32 k)).
+
+Fixpoint bytes_ltb (a b : list N) : bool :=
+  match a, b with
+  | [], [] => false
+  | [], _ :: _ => true
+  | _ :: _, [] => false
+  | x :: a', y :: b' => if (x <? y)%N then true else if (y <? x)%N then false else bytes_ltb a' b'
+  end.
+
+Definition addr_ltb (x y : Z * list N) : bool :=
+  let u := fun z : Z => (z mod 2 ^ 32)%Z in
+  if (u (fst x) <? u (fst y))%Z then true
+  else if (u (fst y) <? u (fst x))%Z then false
+  else bytes_ltb (snd x) (snd y).
 
 Arguments put {K V}. Arguments get {K V}. Arguments puts {K V}.
 Arguments replace_val {K V}. Arguments insert_at {K V}.
